@@ -324,7 +324,9 @@ def verify_function(cid, timeout_ms=10000, node_override=None, canary=True):
     res.reason = str(e)
   except Exception as e:   # pylint: disable=broad-except
     tb = traceback.extract_tb(e.__traceback__)
-    in_contract = bool(tb) and '/contracts/' in tb[-1].filename
+    in_contract = bool(tb) and ('/contracts/' in tb[-1].filename or (
+        # an accessor of the clause context (c['param'], c.v('local'), c.res(i)) called by a clause
+        tb[-1].filename.endswith('pyvc/contract.py') and len(tb) >= 2 and '/contracts/' in tb[-2].filename))
     if in_contract and isinstance(e, (AttributeError, KeyError, IndexError, TypeError)):
       # a clause of the sidecar contract could not even be evaluated on this code (a local it
       # names does not exist any more, a loop iterates over something of another shape, ...):
